@@ -14,7 +14,10 @@ CLAIM = (
     "through the label map, the dump and the C++ emitter read both split targets in order; (3) the consumers' chains over the "
     "instruction kinds are exhaustive; (4) translate() relabels before it removes no-ops; (5) every condition under which "
     "transform_regex raises is rejected upstream: the front end's anchoring check tests the same features (non-empty, single "
-    "alternative, first ^, last $), and the other raising conditions have an upstream guard."
+    "alternative, first ^, last $), and the other raising conditions have an upstream guard; (6) the quantifier expansion emits, per "
+    "arm, minimum + (maximum - minimum) copies (bounded), one looped copy (minimum 0, unbounded) or minimum - 1 copies and one looped "
+    "copy (unbounded), each a fresh translation; (7) the `.*$` shortcut drops the last two terms only under a guard requiring dot, "
+    "quantified, minimum 0, no maximum."
 )
 NOTE = (
     "Trusted base: instruction classes recognised by name (Instruction*), label fields by the suffix `target`. Known finding: "
@@ -33,8 +36,12 @@ def run(ctx) -> None:
     ctx.rule("SEQ", "translate: transform -> relabel -> remove no-ops", floor=1)
     ctx.rule("ANCHOR-ATOMS", "front end and translator test the same anchoring features", floor=4)
     ctx.rule("REVM-PRE", "each raising condition of transform_regex has an upstream guard", floor=2)
+    ctx.rule("REP", "quantifier expansion: copies emitted per arm equal the bounds; every copy is a fresh translation", floor=3)
+    ctx.rule("SUFFIX-OPT", "the `.*$` shortcut is taken only when the dropped term matches anything", floor=4)
     _check_labels(ctx)
     _check_target_fields(ctx)
+    _check_repetitions(ctx)
+    _check_suffix_optimisation(ctx)
     for key in (f"{RV}:_relabel_in_place", f"{RV}:_write_recursively", f"{RV}:_recursively_convert_node_for_public", "cpp.lib._generate_pattern:_write_instructions_recursively", f"{RV}:_remove_noop_in_place"):
         exh.check_exh1(ctx, p.func(key), "EXH1")
     seq.check_sequence(ctx, p.func(f"{RV}:translate"), "SEQ", ["transform", "_relabel_in_place", "_remove_noop_in_place"], lambda n: n.kind == "return")
@@ -187,3 +194,155 @@ def _parsed_from_plain_strings(ctx, upstream) -> bool:
                 if ok and f.module.name.startswith("aas_core_codegen.cpp"):
                     found = True
     return found
+
+
+def _check_repetitions(ctx) -> None:
+    """Quantifier expansion in _Translator.transform_term, as a table of linear forms: how many translated copies of the
+    repeated value each arm emits (loops over ``range`` plus single appends), and that each copy is a fresh translation."""
+    from ..rules import lin
+    from ..rules import schema as S
+
+    p = ctx.p
+    f = p.func(f"{RV}:_Translator.transform_term")
+    parents = S.parents_of(f)
+    defs: Dict[str, List[ast.expr]] = {}
+    for n in walk_function_body(f.node):
+        if isinstance(n, ast.Assign) and len(n.targets) == 1 and isinstance(n.targets[0], ast.Name):
+            defs.setdefault(n.targets[0].id, []).append(n.value)
+
+    def is_translation(e: ast.AST) -> bool:
+        return isinstance(e, ast.Call) and dotted_of(e.func) == "self.transform" and len(e.args) == 1 and dotted_of(e.args[0]) == "node.value"
+
+    def arm_of(n: ast.AST) -> str:
+        arm = []
+        for t, pol in S.guards_of(n, parents):
+            txt = ast.unparse(t)
+            if txt == "node.quantifier.maximum is not None":
+                arm.append("bounded" if pol else "unbounded")
+            elif txt == "node.quantifier.maximum is None":
+                arm.append("unbounded" if pol else "bounded")
+            elif txt == "node.quantifier.minimum == 0":
+                arm.append("min0" if pol else "min>=1")
+        return "/".join(arm)
+
+    # aliasing: a translated node must not be replicated or reused
+    for n in walk_function_body(f.node):
+        if isinstance(n, ast.BinOp) and isinstance(n.op, ast.Mult) and any(isinstance(x, ast.List) and any(is_translation(c) for c in ast.walk(x)) for x in (n.left, n.right)):
+            ctx.fail("REP", f, n, f"`{short(n)}` replicates ONE translated node object: the copies share their leaves, so relabelling and no-op removal treat them as one and the program for the repeated term is wrong", construct="translated node replicated by list multiplication")
+    for name, vs in defs.items():
+        if any(is_translation(v) for v in vs):
+            uses = [x for x in walk_function_body(f.node) if isinstance(x, ast.Name) and x.id == name and isinstance(x.ctx, ast.Load)]
+            in_loop_after = False
+            for u in uses:
+                cur = u
+                while id(cur) in parents:
+                    cur = parents[id(cur)]
+                    if isinstance(cur, (ast.For, ast.While)) and not any(isinstance(d, ast.Assign) and dotted_of(d.targets[0]) == name for d in ast.walk(cur)):
+                        in_loop_after = True
+            if len(uses) > 1 or in_loop_after:
+                ctx.fail("REP", f, f.node, f"the translated node `{name}` is appended more than once: repetitions share one node object", construct=f"translated node {name} reused")
+    # counts per arm
+    got: Dict[str, List[str]] = {}
+    for n in walk_function_body(f.node):
+        if not is_translation(n):
+            continue
+        st = S.stmt_of(n, parents)
+        if isinstance(st, ast.Return):
+            continue  # the {1,1} / no-quantifier shortcuts
+        arm = arm_of(n)
+        loop = None
+        cur: ast.AST = n
+        while id(cur) in parents:
+            cur = parents[id(cur)]
+            if isinstance(cur, ast.For):
+                loop = cur
+                break
+        if loop is None:
+            got.setdefault(arm, []).append("1")
+            continue
+        it = loop.iter
+        form = None
+        if isinstance(it, ast.Call) and dotted_of(it.func) == "range" and 1 <= len(it.args) <= 2:
+            hi = it.args[-1]
+            lo = it.args[0] if len(it.args) == 2 else ast.Constant(0)
+            if isinstance(hi, ast.Name) and len(defs.get(hi.id, [])) == 1:
+                hi = defs[hi.id][0]
+            a, b = lin.lin_of(hi), lin.lin_of(lo)
+            if a is not None and b is not None and b[0] == ():
+                form = (a[0], a[1] - b[1])
+        if form is None:
+            ctx.fail("REP", f, loop, f"the number of repetitions of `{short(loop.iter)}` is not a linear form of the quantifier bounds", construct=f"{arm}: loop count")
+            continue
+
+        def show(fm) -> str:
+            terms = [("" if k == 1 else "-" if k == -1 else f"{k}*") + s.replace("node.quantifier.", "") for s, k in fm[0]]
+            txt = " + ".join(terms).replace("+ -", "- ")
+            return txt + (f" {fm[1]:+d}" if fm[1] else "")
+        got.setdefault(arm, []).append(show(form))
+    want = {
+        "bounded": sorted(["minimum", "maximum - minimum"]),
+        "unbounded/min0": ["1"],
+        "unbounded/min>=1": sorted(["minimum -1", "1"]),
+    }
+    for arm, w in want.items():
+        g = sorted(got.get(arm, []))
+        gn = sorted(x.replace("-minimum + maximum", "maximum - minimum").replace("maximum -minimum", "maximum - minimum") for x in g)
+        what = f"quantifier arm {arm}: copies emitted = {' + '.join(w)}"
+        if gn == w:
+            ctx.ok("REP", f, f.node, what=what)
+        else:
+            ctx.fail("REP", f, f.node, f"in the {arm} arm the translated value is emitted {' + '.join(gn) or 'never'} times; the quantifier requires {' + '.join(w)} (mandatory copies, then optional copies / the loop): the program accepts a wrong number of repetitions", construct=what)
+    extra = set(got) - set(want)
+    if extra:
+        ctx.fail("REP", f, f.node, f"translations in unrecognised arms {sorted(extra)}", construct="unrecognised quantifier arm")
+
+
+def _check_suffix_optimisation(ctx) -> None:
+    """``.*$`` at the end is replaced by an early Match: the guard of the slice that drops the last two terms must require
+    that the penultimate term matches anything (dot, quantified, minimum 0, no maximum)."""
+    from ..rules import schema as S
+
+    p = ctx.p
+    f = p.func(f"{RV}:_Translator.transform_regex")
+    parents = S.parents_of(f)
+    drops = []
+    for n in walk_function_body(f.node):
+        if isinstance(n, ast.Subscript) and isinstance(n.slice, ast.Slice) and ast.unparse(n.value).endswith("concatenants"):
+            up = n.slice.upper
+            if isinstance(up, ast.UnaryOp) and isinstance(up.op, ast.USub) and isinstance(up.operand, ast.Constant) and up.operand.value >= 2:
+                drops.append(n)
+    if not drops:
+        ctx.ok("SUFFIX-OPT", f, f.node, what="no term beside the anchors is dropped from the program", nontrivial=False)
+        return
+    REQUIRED = {
+        "{t}.value.kind is parse_retree.SymbolKind.DOT": "the term is the dot",
+        "{t}.quantifier is not None": "the term is quantified",
+        "{t}.quantifier.minimum == 0": "zero repetitions allowed",
+        "{t}.quantifier.maximum is None": "no upper bound",
+    }
+    for d in drops:
+        atoms = set()
+        for t, pol in S.guards_of(d, parents):
+            if not pol:
+                continue
+            vals = t.values if isinstance(t, ast.BoolOp) and isinstance(t.op, ast.And) else [t]
+            atoms |= {ast.unparse(v) for v in vals}
+        # the dropped term: concatenants[-2]
+        tvars = [name for name, vs in _defs(f).items() if any("concatenants[-2]" in ast.unparse(v) for v in vs)]
+        ctx.require_anchor(len(tvars) == 1, "the penultimate term is bound to one variable")
+        tv = tvars[0]
+        for tmpl, why in REQUIRED.items():
+            a = tmpl.format(t=tv)
+            what = f"dropping the last two terms requires `{a}` ({why})"
+            if a in atoms:
+                ctx.ok("SUFFIX-OPT", f, d, what=what)
+            else:
+                ctx.fail("SUFFIX-OPT", f, d, f"`{short(d)}` drops the penultimate term and `$` in favour of an immediate Match, but the guard does not require `{a}` ({why}): the program accepts inputs the pattern rejects", construct=what)
+
+
+def _defs(f) -> Dict[str, List[ast.expr]]:
+    out: Dict[str, List[ast.expr]] = {}
+    for n in walk_function_body(f.node):
+        if isinstance(n, ast.Assign) and len(n.targets) == 1 and isinstance(n.targets[0], ast.Name):
+            out.setdefault(n.targets[0].id, []).append(n.value)
+    return out
